@@ -267,7 +267,6 @@ class Real:
         proto = (1, 1) if case['proto'] == 11 else (1, 0)
         req = w.Request(None, 'GET', 'http', '/r', proto, '', headers=self.Headers([('Host', 'localhost')]), server=self.server)
         res = w.Response(req)
-        res.time = float(LM_EPOCH)
         pre = {'etag': ('ETag', TAGS[1]), 'lm': ('Last-Modified', LM), 'age': ('Age', '5'), 'expires': ('Expires', EXPIRES)}
         if case['ind'] != 'none':
             k, v = pre[case['ind']]
@@ -277,6 +276,7 @@ class Real:
         if case['cc']:
             res.headers['Cache-Control'] = CC_PRE
         now = _datetime(2024, 2, 29, 12, 0, 0) if case['day'] == 'leap' else _datetime(2023, 6, 15, 12, 0, 0)
+        res.time = _time.mktime(now.timetuple()) - 1000.0       # the response was begun a while before the tool runs
 
         class Frozen(_datetime):
             @classmethod
@@ -310,7 +310,7 @@ class Real:
                 xe = 'other'
             else:
                 ts = mktime_tz(t)
-                if ts > res.time:
+                if ts > res.time - 1:
                     xe, xd = 'future', int(ts - res.time)
                 else:
                     xe, xd = 'past', int(round((_time.mktime(now.timetuple()) - ts) / 86400.0))
@@ -357,11 +357,14 @@ class Real:
                 except Exception:
                     b = 'other'
         v = res.headers.get('Vary')
-        vl = [x.strip() for x in v.split(',')] if v else []
-        xc = 'none' if v is None else 'ae' if vl.count('Accept-Encoding') == 1 and (
-            case['vary'] != 'other' or 'Accept-Language' in vl) else 'lost' if 'Accept-Encoding' not in vl else 'other'
-        if v is not None and 'Accept-Encoding' not in vl:
-            xc = 'plain' if (case['vary'] == 'other' and vl == ['Accept-Language']) else 'lost'
+        if v is None:
+            xc = 'none'
+        else:
+            vl = [x.strip() for x in v.split(',')]
+            n_ae = vl.count('Accept-Encoding')
+            other_ok = ('Accept-Language' in vl) == (case['vary'] == 'other')
+            extra = [x for x in vl if x not in ('Accept-Encoding', 'Accept-Language')]
+            xc = 'other' if extra or not other_ok or n_ae > 1 else 'ae' if n_ae == 1 else 'plain'
         cl = res.headers.get('Content-Length')
         return [line('gres', code=code, exc=exc, body=b, xe='gzip' if enc == 'gzip' else 'none' if enc is None else 'other',
                      xc=xc, hcl='none' if cl is None else 'zero' if cl == '0' else 'full' if cl == str(len(BODY)) else 'other')]
@@ -376,8 +379,9 @@ class Real:
         return self.run_direct(case)
 
 
-AE_SPELL = {'gzip': 'gzip', 'xgzip': 'x-gzip', 'gzipq0': 'gzip;q=0', 'identity': 'identity', 'idq0gzip': 'identity;q=0, gzip',
-            'deflate': 'deflate', 'star': '*', 'gzipid': 'gzip, identity;q=0.5', 'idgzip': 'identity, gzip;q=0.5'}
+AE_SPELL = {'gzip': 'gzip', 'xgzip': 'x-gzip', 'brgzip': 'br, gzip', 'gzipq0': 'gzip;q=0', 'identity': 'identity',
+            'idgzip': 'identity, gzip;q=0.5', 'gzipid': 'gzip, identity;q=0.5', 'idq0gzip': 'identity;q=0, gzip',
+            'idq0': 'identity;q=0', 'deflate': 'deflate', 'star': '*'}
 
 _STATUS = re.compile(rb'^HTTP/1\.[01] (\d{3})(?: |$)')
 
